@@ -1,6 +1,7 @@
 package props
 
 import (
+	"encoding/json"
 	"fmt"
 	"math/rand"
 	"os"
@@ -9,6 +10,8 @@ import (
 	"strings"
 
 	"github.com/aml-org/amf-custom-validator/internal/misc"
+	"github.com/aml-org/amf-custom-validator/internal/validator"
+	"github.com/aml-org/amf-custom-validator/internal/validator/contexts"
 	"github.com/aml-org/amf-custom-validator/pkg"
 	"github.com/aml-org/amf-custom-validator/pkg/config"
 	"github.com/aml-org/amf-custom-validator/verifh/core"
@@ -417,10 +420,65 @@ func C15(e *core.Env) {
 		}
 	}
 	// data uses two namespaces: ex (a, c) and zz (b)
-	mkData := func(r *rand.Rand) string {
+	mkGraph := func(r *rand.Rand) Graph {
 		g := RandomEdgeGraph(r, 3+r.Intn(4), []string{"a", "b", "c"}, 0.2+0.2*r.Float64())
-		text := g.JSONLD()
-		return strings.ReplaceAll(text, ExNS+"b", "http://example.org/zz#b")
+		for i := range g.Nodes {
+			for j := range g.Nodes[i].Props {
+				if g.Nodes[i].Props[j].Iri == ExNS+"b" {
+					g.Nodes[i].Props[j].Iri = "http://example.org/zz#b"
+				}
+			}
+			// every node carries one ex.single value (single-valued placeholder)
+			g.Nodes[i].Props = append(g.Nodes[i].Props, GProp{Iri: ExNS + "single", Vals: []GVal{VS("one")}})
+		}
+		return g
+	}
+	defaults := []sx.V{}
+	dnames := []string{}
+	for k := range contexts.DefaultAMFContext {
+		dnames = append(dnames, k)
+	}
+	sort.Strings(dnames)
+	for _, k := range dnames {
+		if v, ok := contexts.DefaultAMFContext[k].(string); ok {
+			defaults = append(defaults, sx.L(sx.S(k), sx.S(v)))
+		}
+	}
+	// modelVerdict: the Coq model of the profile parser + generator + evaluation, from the YAML tree as yaml.v3 parsed it
+	modelVerdict := func(profileText string, g Graph) (string, bool) {
+		var doc yaml3.Node
+		if yaml3.Unmarshal([]byte(profileText), &doc) != nil || len(doc.Content) == 0 {
+			return "", false
+		}
+		y, ok := yamlSx(doc.Content[0])
+		if !ok {
+			return "", false
+		}
+		ans, err := e.Driver.Eval(sx.L(sx.A("c15"), sx.A("verdict"), sx.L(defaults...), y, g.Sx()))
+		if err != nil {
+			res.Violate("harness-error", err.Error(), map[string]any{"no_failing_input_found": true, "broken": "driver"})
+			return "", false
+		}
+		if ans.IsL && len(ans.List) == 2 && ans.List[0].Atom == "ok" {
+			items := []string{}
+			for _, it := range ans.List[1].List {
+				items = append(items, it.Text())
+			}
+			return strings.Join(items, "\n"), true
+		}
+		res.Count("model-parser-answer=" + ans.Atom)
+		return "", false
+	}
+	implVerdict := func(report string) string {
+		rep, err := ParseReport(report)
+		if err != nil {
+			return "unparsable"
+		}
+		items := map[string]bool{}
+		for _, r := range rep.Results {
+			items[sevLevel(r.Severity)+"|"+r.Name+"|"+r.Focus] = true
+		}
+		return strings.Join(sortedKeys(items), "\n")
 	}
 	summary := func(report string) (string, int) {
 		rep, err := ParseReport(report)
@@ -446,7 +504,7 @@ func C15(e *core.Env) {
 			for {
 				f = randomForm(e.Rand, 2, func() FForm {
 					a := as[e.Rand.Intn(len(as))]
-					if e.Rand.Intn(6) == 0 {
+					if e.Rand.Intn(16) == 0 {
 						// inline Rego operands with the default message: different code, same printed form
 						codes := []string{`$result = (object.get($node, "@id", "") != "http://example.org/d#n0")`,
 							`$result = (object.get($node, "@id", "") != "http://example.org/d#n1")`,
@@ -481,11 +539,8 @@ func C15(e *core.Env) {
 			}
 		}
 		orig := p.render(e.Rand, false)
-		datas := []string{mkData(e.Rand), mkData(e.Rand)}
-		for di := range datas {
-			// every node carries one ex.single value (single-valued placeholder)
-			datas[di] = strings.ReplaceAll(datas[di], `"@type":`, `"`+ExNS+`single":"one","@type":`)
-		}
+		graphs := []Graph{mkGraph(e.Rand), mkGraph(e.Rand)}
+		datas := []string{graphs[0].JSONLD(), graphs[1].JSONLD()}
 		refs := []string{}
 		total := 0
 		okOrig := true
@@ -504,6 +559,13 @@ func C15(e *core.Env) {
 			s, n := summary(out)
 			refs = append(refs, s)
 			total += n
+			if mv, ok := modelVerdict(orig, graphs[len(refs)-1]); ok {
+				res.Count("model-parser-verdicts-compared")
+				if iv := implVerdict(out); iv != mv {
+					res.Violate("model-mismatch", "the verdict computed by the Coq model from the YAML tree (parser + generator + evaluation) differs from the library's",
+						map[string]any{"no_failing_input_found": true, "broken": "correspondence ProfileParser.verdict vs pkg.Validate", "profile": orig, "data": d, "impl": iv, "model": mv})
+				}
+			}
 		}
 		if !okOrig {
 			continue
@@ -535,6 +597,13 @@ func C15(e *core.Env) {
 					res.Violate("impl-violates-property", "a rewriting that keeps the meaning of the profile changes the verdict", replay)
 					break
 				}
+				if mv, ok := modelVerdict(variant, graphs[di]); ok && di == 0 {
+					res.Count("model-parser-verdicts-compared")
+					if iv := implVerdict(out); iv != mv {
+						res.Violate("model-mismatch", "the verdict computed by the Coq model from the YAML tree of a rewritten profile differs from the library's",
+							map[string]any{"no_failing_input_found": true, "broken": "correspondence ProfileParser.verdict vs pkg.Validate", "profile": variant, "data": d, "impl": iv, "model": mv})
+					}
+				}
 			}
 			res.Case(fmt.Sprintf("p%d|%x", pi, hashString(variant)), total > 0)
 			res.Count("variants")
@@ -543,7 +612,7 @@ func C15(e *core.Env) {
 			}
 		}
 	}
-	c15Fixtures(e, rc, summary)
+	c15Fixtures(e, rc, summary, defaults)
 	// the IRI expander against the model, on the compact IRIs the profiles use and on renamed / aliased ones
 	ctxPairs := [][2]string{{"ex", ExNS}, {"zz", "http://example.org/zz#"}, {"al12ex", ExNS}, {"ex-r31", ExNS}}
 	ctxSx := []sx.V{}
@@ -691,7 +760,69 @@ func aliasPrefixes(r *rand.Rand, t *onode) {
 
 // c15Fixtures rewrites the repository's own integration profiles (keys, free lists, styles, alias prefixes for the
 // built-in vocabularies) and validates the fixture data with both spellings.
-func c15Fixtures(e *core.Env, rc config.ReportConfiguration, summary func(string) (string, int)) {
+// graphSx renders the library's own normalised input (input["@ids"]) as the model's graph; false when it holds a
+// value the model has no counterpart for (floats, value objects, nested objects).
+func graphSx(norm any) (sx.V, bool) {
+	m, _ := norm.(map[string]any)
+	ids, _ := m["@ids"].(map[string]any)
+	names := []string{}
+	for id := range ids {
+		names = append(names, id)
+	}
+	sort.Strings(names)
+	nodes := []sx.V{sx.A("graph")}
+	for _, id := range names {
+		n, _ := ids[id].(map[string]any)
+		props := []sx.V{}
+		keys := []string{}
+		for k := range n {
+			if k != "@id" {
+				keys = append(keys, k)
+			}
+		}
+		sort.Strings(keys)
+		for _, k := range keys {
+			vals := []sx.V{}
+			ok := true
+			var add func(v any)
+			add = func(v any) {
+				switch x := v.(type) {
+				case []any:
+					for _, el := range x {
+						add(el)
+					}
+				case string:
+					vals = append(vals, sx.L(sx.A("s"), sx.S(x)))
+				case bool:
+					vals = append(vals, sx.L(sx.A("b"), sx.B(x)))
+				case json.Number:
+					if i, err := x.Int64(); err == nil && i > -1000000 && i < 1000000 {
+						vals = append(vals, sx.L(sx.A("i"), sx.I(int(i))))
+					} else {
+						ok = false
+					}
+				case map[string]any:
+					if rid, isRef := x["@id"].(string); isRef && len(x) == 1 {
+						vals = append(vals, sx.L(sx.A("r"), sx.S(rid)))
+					} else {
+						ok = false
+					}
+				default:
+					ok = false
+				}
+			}
+			add(n[k])
+			if !ok {
+				return sx.V{}, false
+			}
+			props = append(props, sx.L(sx.S(k), sx.L(vals...)))
+		}
+		nodes = append(nodes, sx.L(sx.A("node"), sx.S(id), sx.L(props...)))
+	}
+	return sx.L(nodes...), true
+}
+
+func c15Fixtures(e *core.Env, rc config.ReportConfiguration, summary func(string) (string, int), defaults []sx.V) {
 	res := e.Res
 	dir := e.Repo + "/test/data/integration"
 	for i := 1; i <= 29; i++ {
@@ -725,6 +856,37 @@ func c15Fixtures(e *core.Env, rc config.ReportConfiguration, summary func(string
 			}
 			s, _ := summary(out)
 			refs = append(refs, s)
+			// the repository's own profile and data through the Coq model (where it supports every construct used)
+			if y, yok := yamlSx(doc.Content[0]); yok {
+				if norm, nerr := validator.ProcessInput(d, false, nil); nerr == nil {
+					if gsx, gok := graphSx(norm); gok {
+						ans, derr := e.Driver.Eval(sx.L(sx.A("c15"), sx.A("verdict"), sx.L(defaults...), y, gsx))
+						if derr == nil && ans.IsL && len(ans.List) == 2 {
+							items := []string{}
+							for _, it := range ans.List[1].List {
+								items = append(items, it.Text())
+							}
+							rep, perr := ParseReport(out)
+							got := map[string]bool{}
+							if perr == nil {
+								for _, r := range rep.Results {
+									got[sevLevel(r.Severity)+"|"+r.Name+"|"+r.Focus] = true
+								}
+							}
+							res.Count("fixture-model-verdicts-compared")
+							if strings.Join(items, "\n") != strings.Join(sortedKeys(got), "\n") {
+								res.Violate("model-mismatch", fmt.Sprintf("the Coq model's verdict for fixture profile%d differs from the library's", i),
+									map[string]any{"no_failing_input_found": true, "broken": "correspondence ProfileParser.verdict vs pkg.Validate on a repository fixture",
+										"fixture": fmt.Sprintf("test/data/integration/profile%d", i), "model": items, "impl": sortedKeys(got)})
+							}
+						} else if derr == nil {
+							res.Count("fixture-model-answer=" + ans.Atom)
+						}
+					} else {
+						res.Count("fixture-graph-outside-model")
+					}
+				}
+			}
 		}
 		if !ok {
 			res.Count("fixture-skipped")
@@ -758,4 +920,36 @@ func c15Fixtures(e *core.Env, rc config.ReportConfiguration, summary func(string
 			res.Count("fixture-variants")
 		}
 	}
+}
+
+// yamlSx renders a yaml.v3 tree as the model's ynode; aliases, merge keys and non-scalar keys are not modelled.
+func yamlSx(n *yaml3.Node) (sx.V, bool) {
+	switch n.Kind {
+	case yaml3.ScalarNode:
+		return sx.L(sx.A("scalar"), sx.S(n.Tag), sx.S(n.Value)), true
+	case yaml3.SequenceNode:
+		items := []sx.V{sx.A("seq")}
+		for _, c := range n.Content {
+			v, ok := yamlSx(c)
+			if !ok {
+				return sx.V{}, false
+			}
+			items = append(items, v)
+		}
+		return sx.L(items...), true
+	case yaml3.MappingNode:
+		items := []sx.V{sx.A("map")}
+		for i := 0; i+1 < len(n.Content); i += 2 {
+			if n.Content[i].Kind != yaml3.ScalarNode || n.Content[i].Tag == "!!merge" {
+				return sx.V{}, false
+			}
+			v, ok := yamlSx(n.Content[i+1])
+			if !ok {
+				return sx.V{}, false
+			}
+			items = append(items, sx.L(sx.S(n.Content[i].Value), v))
+		}
+		return sx.L(items...), true
+	}
+	return sx.V{}, false
 }
